@@ -111,6 +111,11 @@ SIGKINDS = ['slice', 'keepalloc']
 # g_i(x) + 2 <= z: the variable z of the sub-problem is strictly positive at every sub-problem solution
 OPTS = {'a1_a0_1': (1.0, 1.0, None, 0.0), 'a1_a0_50': (1.0, 50.0, None, 0.0), 'c10': (0.0, 1.0, 10.0, 0.0),
         'minmax_a0_1': (1.0, 1.0, None, 2.0), 'minmax_a0_50': (1.0, 50.0, None, 2.0)}
+# (a, a0, c, shift, constraint scale): constraints of magnitude 10-100 with a large price a0 on the shared variable z
+# (z starts large and shrinks quickly: the regime in which the step-length rule of the sub-problem solver has to protect z)
+OPTS_SCALED = {f'z_a0_{a0:g}_s{sh:g}_g{gs:g}': (1.0, float(a0), None, float(sh) * gs, float(gs))
+               for a0 in (50, 200) for sh, gs in ((0.0, 10.0), (0.5, 100.0))}
+OPTS.update(OPTS_SCALED)
 
 
 def _expected_unbalanced(n, obj, cons, table):
@@ -155,8 +160,17 @@ def generate(tier, seed):
                     for sk in SIGKINDS:
                         if not (_expected_unbalanced(n, obj, cons, table) and tier == 'quick'):
                             yield dict(base, sigkind=sk)
-                    for op in sorted(OPTS):
+                    for op in sorted(set(OPTS) - set(OPTS_SCALED)):
                         yield dict(base, opts=op)
+    yield {'__level__': 'min-max with scaled constraints (all value tables)'}
+    for tb in range(R.NTABLES):
+        for n in ((2, 3, 5) if tier == 'quick' else (2, 3, 5, 6, 8)):
+            for start in (('mixed', 'mid', 'upper') if tier == 'quick' else R.STARTS):
+                for ver in R.VERSIONS:
+                    for op in sorted(OPTS_SCALED):
+                        yield {'n': n, 'split': 'one_array', 'obj': 'linpos', 'cons': 'rec3', 'bounds': 'scalar',
+                               'move': 'persignal', 'start': start, 'version': ver, 'asy': 'default', 'table': tb,
+                               'opts': op}
 
 
 # ------------------------------------------------------------------------------------------------- execution
@@ -240,8 +254,9 @@ def execute(case):
         sigs = [pym.Signal('x0', x0.copy(), sensitivity=np.zeros(n))]
     extra = {}
     if opts:
-        a_, a0_, c_, shift_ = OPTS[opts]
+        a_, a0_, c_, shift_ = OPTS[opts][:4]
         prob.shift = shift_
+        prob.gscale = OPTS[opts][4] if len(OPTS[opts]) > 4 else 1.0
         extra = {'a': np.full(m, a_), 'a0': a0_}
         if c_ is not None:
             extra['c'] = np.full(m, c_)
